@@ -67,6 +67,16 @@ pub fn c06(args: &[String]) -> i32 {
             match apply(&[line.to_string()], &w) { Out::Ok(r) if r == w => {}, o => println!("FINDING c06-blank-line line={line:?} word={} outcome={}", word_flat(&w, false), match o { Out::Ok(r) => word_flat(&r, false), x => x.class() }) }
         }
     }
+    // a comment runs to the end of the STRING it is in (the library takes any string as a rule): a string that starts with `;;`
+    // is a comment whatever follows a line break inside it; white space of any kind is blank
+    let mut g2 = Gen::new(seed ^ 0xC06B);
+    for line in [";; note\na > e", ";; lowering, switched off\nV > [+long]", "  ;; x\r\n[] > * / _#", "\n", " \n\t", ";;\n% > [+stress]", ";; a\n;; b\nC > [+voice]", "\t;;\n\na > *"] {
+        for _ in 0..20 {
+            let Some(w) = parse(&g2.word()) else { continue };
+            st.inc("c06.cases"); st.inc("c06.blank_lines");
+            match apply(&[line.to_string()], &w) { Out::Ok(r) if r == w => {}, o => println!("FINDING c06-blank-line line={line:?} word={} outcome={}", word_flat(&w, false), match o { Out::Ok(r) => word_flat(&r, false), x => x.class() }) }
+        }
+    }
     for case in 0..n {
         let prof = if case % 4 == 0 { Profile::Full } else { Profile::Tame };
         let mut rule = g.rule(prof);
@@ -353,6 +363,21 @@ pub fn c08(args: &[String]) -> i32 {
             let out: Vec<&str> = (0..nout).map(|i| ["b", "e", "d", "o"][i % 4]).collect();
             rules = vec![format!("{} > {}", inp.join(" "), out.join(" "))];
             parts.join(".")
+        } else if case % 9 == 7 {
+            // crafted: a deletion whose one match covers the whole word (the refusal to delete the only segment is decided element by
+            // element while the word shrinks); words of one to three short syllables, the first often a single vowel
+            let syl = |g: &mut Gen, first: bool| if first && g.rng.chance(1, 2) { ["a", "i", "u", "o"][g.rng.below(4)].to_string() } else { format!("{}{}{}", ["t", "k", "n", "s", ""][g.rng.below(5)], ["a", "i", "e"][g.rng.below(3)], ["", "", "n"][g.rng.below(3)]) };
+            let parts: Vec<String> = (0..1 + g.rng.below(3)).map(|i| syl(&mut g, i == 0)).collect();
+            let mut els: Vec<String> = Vec::new();
+            for (i, p) in parts.iter().enumerate() {
+                if i > 0 && g.rng.chance(1, 4) { els.push("$".into()); }
+                if i > 0 && g.rng.chance(1, 3) { els.push("%".into()); continue }
+                for c in p.chars() { els.push(match g.rng.below(3) { 0 => c.to_string(), 1 => if "aiueo".contains(c) { "V".into() } else { "C".into() }, _ => "[]".into() }); }
+            }
+            rules = vec![format!("{} > *{}", els.join(" "), ["", "", " / #_", " / _#"][g.rng.below(4)])];
+            if g.rng.chance(1, 3) { rules.insert(0, "s > z".into()); rules.push("z > s".into()); }
+            st.inc("c08.crafted_whole_word_deletions");
+            parts.join(".")
         } else if case % 4 == 0 { format!("{}{}.{}{}", g.pick_cv(), crate::gen::TONES[g.rng.below(5)], g.small_word(), crate::gen::TONES[g.rng.below(5)]) } else { g.word() };
         let Some(w) = parse(&text) else { continue };
         if word_wf(&w).is_some() { st.inc("c08.skipped_input_not_wf"); continue }
@@ -369,7 +394,11 @@ pub fn c08(args: &[String]) -> i32 {
                             if r.contains("⟨⟩") || r.contains("<>") { ":empty-structure" }
                             else if r.trim_start().starts_with("* > $") || r.trim_start().starts_with("∅ > $") || out_part(r).map_or(false, |o| o.trim_start().starts_with('$') || o.contains(" $")) { ":boundary-inserted-at-word-edge" }
                             else if r.contains("&") && r.contains('$') { ":boundary-metathesis-at-word-edge" }
-                            else if why == "no-syllable" && (r.contains("> *") || r.contains("> ∅") || r.contains("=> *") || r.contains("=> ∅") || r.contains("-> *") || r.contains("-> ∅")) { ":whole-word-deleted" }
+                            else if why == "no-syllable" && (r.contains("> *") || r.contains("> ∅") || r.contains("=> *") || r.contains("=> ∅") || r.contains("-> *") || r.contains("-> ∅")) {
+                                // D8d needs the first matched segment (the last one deleted) to share its syllable with another; a word whose
+                                // first segment stands alone in its syllable is protected by the guard as it stands
+                                let before = if i == 0 { &w } else { &stages[i - 1] };
+                                if before.sylls.first().map_or(false, |sy| sy.segs.len() == 1) { ":whole-word-deleted:first-segment-alone-in-its-syllable" } else { ":whole-word-deleted" } }
                             else { "" }
                         } else { "" };
                         println!("FINDING c08-{why}{fam} rules={:?} failing_rule={r:?} word={} after_group={i} got={}", rules, word_flat(&w, false), word_flat(s, false));
@@ -473,7 +502,20 @@ pub fn c12(args: &[String]) -> i32 {
             _ => { // A B > &  =  A=1 B=2 > 2 1   (matrices / groups)
                 let a = ["C", "V", "[+voice]", "[-son]", "N", "[+syll]"][g.rng.below(6)]; let b = ["C", "V", "[-voice]", "[+son]", "O", "[-syll]"][g.rng.below(6)];
                 let env = if g.rng.chance(1, 2) { format!(" / _ {}", one(&mut g)) } else { String::new() };
+                if g.rng.chance(1, 2) {
+                    // `&` reverses any number of elements: 3 to 5 of them, on a word over three letters so that the segments at the
+                    // two ends of a match are often equal
+                    let k = 3 + g.rng.below(3);
+                    let els: Vec<&str> = (0..k).map(|_| ["C", "V", "[]", "[-syll]", "[+syll]"][g.rng.below(5)]).collect();
+                    let lhs: Vec<String> = els.iter().enumerate().map(|(i, e)| format!("{e}={}", i + 1)).collect();
+                    let rhs: Vec<String> = (1..=k).rev().map(|i| i.to_string()).collect();
+                    let mut t = String::new();
+                    for i in 0..2 + g.rng.below(5) { if i > 0 && g.rng.chance(1, 3) { t.push('.'); } t.push_str(["t", "a", "k", "i", "t", "a"][g.rng.below(6)]); }
+                    match parse(&t) { Some(x) => w = x, None => continue }
+                    (vec![format!("{} > &", els.join(" "))], vec![format!("{} > {}", lhs.join(" "), rhs.join(" "))], "metathesis")
+                } else {
                 (vec![format!("{a} {b} > &{env}")], vec![format!("{a}=1 {b}=2 > 2 1{env}")], "metathesis")
+                }
             }
         };
         // the metathesis equivalence is stated for words without adjacent equal segments
